@@ -207,7 +207,10 @@ MUST_REACH = ["oversize_rejected", "empty_message_written", "three_byte_length",
               "message_fills_capacity", "rsv_inside_message", "rsv_before_ndef_tlv",
               "rsv_beyond_data_area", "rsv_at_end_of_data_area", "rsv_after_message",
               "t1_message_spans_reserved_blocks", "nxp_vendor_class", "felica_vendor_class"]
-BOUNDS = {"quick": "T2: data areas 48/496 bytes, 13 control-TLV layouts, boundary message lengths; all contents symbolic",
-          "thorough": "T2: data areas 48 (every length)/496/872/2032"}
-OUTSIDE = ["data area sizes other than listed", "more than one lock- and one memory-control TLV"]
-ASSUMPTIONS = ["Tt2Sim (env/tags.py) behaves like a Type 2 Tag: plain memory, NAK beyond physical size"]
+BOUNDS = {
+    "quick": "Type 2: data areas of 48 bytes (13 control-TLV layouts, lengths from boundary sets), 264 bytes with 5..9 bytes of TLVs in front (capacity edge at 254/255), 496 bytes (plain, lock TLV, NULL+memory TLV) with lengths around 254/255/256 and the capacity, one two-sector tag (2032 bytes) written across the sector boundary, NXP products NTAG213/215/203 and Ultralight EV1 through their vendor classes; Type 1: Topaz, static with NULL/memory TLV, Topaz-512, generic dynamic tags (HR0 12h/13h/1Fh; 256, 296, 512 bytes); Type 3: seven (Nbr, Nbw, Nmaxb) triples incl. Nbr 15, a 64 KiB data area, FeliCa Lite/Lite-S vendor classes, and the library's own Type 3 emulation as the tag; Type 4: mapping versions 2 and 3, Type 4A/4B, FSCI 2/5/8, MLe and MLc symbolic over 1..FFFFh, AID versions.  All message bytes and all previous tag contents symbolic (except the 64 KiB and sector-crossing partitions)",
+    "thorough": "as quick, plus every message length for the 48-byte Type 2 and 120-byte Type 1 areas, data areas 872/2032, more Type 3 triples, NTAG216, further Type 4 combinations"}
+OUTSIDE = ["data area sizes and layouts other than listed", "more than one lock- and one memory-control TLV",
+           "message contents of the 64 KiB / sector-crossing partitions (concrete there: the subject is the length and address arithmetic)"]
+ASSUMPTIONS = ["the tag simulators of env/tags.py: plain memory, NAK beyond the physical size (which is larger than the declared data area where a partition says so), Type 4: ISO/IEC 14443-4 PICC rules + ISO/IEC 7816-4 NDEF application with strict Le/Lc/file-size checks",
+               "capacity oracle: the harness computes what the layout it generated can hold (harness/worlds.py real_capacity)"]
